@@ -108,7 +108,7 @@ def run_into(prog, x, ap, regs):
             regs.append(ap.vecsym(regs[ins[1]]))
         elif k == 'powr':
             regs.append(regs[ins[1]] ** regs[ins[2]])
-        elif k in ('eigh', 'qr', 'cholesky', 'svd', 'lu'):
+        elif k in ('eigh', 'qr', 'cholesky', 'svd', 'lu', 'qr_full'):
             regs.append(getattr(ap, k)(regs[ins[1]]))
         elif k == 'tget':
             regs.append(regs[ins[1]][ins[2]])
@@ -260,6 +260,24 @@ class Gen:
             r = self.emit(['trace', self.emit(['reshape', one, [1, 1]], ('m', 1, 1))], 's')
         sm = self.emit(['sum', w2], 's')
         return self.emit(['bin', 'mul', ['r', r], ['r', sm]], 's')        # used nonlinearly, next to another use of the operand
+
+    def copy_block(self):
+        """"work on a copy": c = 0 + v (or v + 0, 1 * v, v * 1, v - 0, v / 1) is a NEW value; writing into it leaves v alone and both are used"""
+        n = 3
+        v = self.emit(['zeros', n], 'bufv')
+        for k in range(n):
+            self.emit(['set', v, k, ['r', self.pick_scalar()]])
+        form = self.rng.choice(['0+v', 'v+0', '1*v', 'v*1', 'v-0', 'v/1'])
+        self.tags.add('copy:' + form)
+        op, lhs, rhs = {'0+v': ('add', ['c', 0], ['r', v]), 'v+0': ('add', ['r', v], ['c', 0]), '1*v': ('mul', ['c', 1], ['r', v]), 'v*1': ('mul', ['r', v], ['c', 1]),
+                        'v-0': ('sub', ['r', v], ['c', 0]), 'v/1': ('div', ['r', v], ['c', 1])}[form]
+        c = self.emit(['bin', op, lhs, rhs], 'bufv')
+        self.buf_len[c] = n
+        self.emit(['set', c, 0, ['r', self.pick_scalar()]])                       # write into the copy ...
+        self.emit(['set', v, 2, ['r', self.emit(['un', 'sin', self.pick_scalar()], 's')]])     # ... and into the original
+        a = self.emit(['dot', v, self.emit(['un', 'sin', c], ('v', n))], 's')
+        b = self.emit(['sum', self.emit(['bin', 'mul', ['r', c], ['a', [0.5, -1.0, 2.0]]], ('v', n))], 's')
+        return self.emit(['bin', 'add', ['r', a], ['r', b]], 's')
 
     def vector_block(self):
         n = min(self.N, self.rng.randint(2, 3))
@@ -497,7 +515,15 @@ class Gen:
                 else:
                     e = self.emit(['bin', 'mul', ['r', t], ['c', 0.5]], 's')
                     self.emit(['set2', M, i, j, ['r', e]]); self.emit(['set2', M, j, i, ['r', e]])
-        kind = self.rng.choice(['eigh', 'eigh', 'cholesky', 'qr', 'lu', 'svd'])
+        kind = self.rng.choice(['eigh', 'eigh', 'cholesky', 'qr', 'lu', 'svd', 'qr_full_T'])
+        if kind == 'qr_full_T':
+            # full QR of a TRANSPOSED view (matrix slices that are Fortran contiguous), |R_ij| is unique
+            Mt = self.emit(['T', M], ('m', n, n))
+            qr = self.emit(['qr_full', Mt], 'tuple')
+            R = self.emit(['tget', qr, 1], ('m', n, n))
+            R2 = self.emit(['un', 'square', R], ('m', n, n))
+            W = self.emit(['bin', 'mul', ['r', R2], ['a', [[self.rng.choice([0.5, 1.0, -1.0]) for _ in range(n)] for _ in range(n)]]], ('m', n, n))
+            return self.emit(['sum', W], 's')
         if kind == 'lu':
             # W, L, U = lu(M): both triangular factors enter the result, with weights on every entry (the unit diagonal of L included)
             wlu = self.emit(['lu', M], 'tuple')
@@ -716,7 +742,7 @@ def kernel_programs(rng, ap, reps=2):
             fs.add(ins[0] + ''.join(':%s' % (v,) for v in ins[1:] if isinstance(v, str) or (ins[0] in ('sumaxis', 'symvec', 'prod', 'T') and isinstance(v, int))))
         return fs
 
-    for name, k in [('buffer_block', 8), ('vector_block', 8), ('matrix_block', 14), ('rect_block', 10), ('fact_block', 8), ('bcast_block', 6), ('edge_block', 6), ('nd_block', 8)]:
+    for name, k in [('buffer_block', 8), ('vector_block', 8), ('matrix_block', 14), ('rect_block', 10), ('fact_block', 8), ('bcast_block', 6), ('edge_block', 6), ('nd_block', 8), ('copy_block', 6)]:
         # every branch of a block, not whatever a handful of draws happens to pick: keep drawing blocks (cheap, nothing is evaluated
         # here) and keep each one that shows an instruction/parameter combination not seen so far, besides the first k
         want = k * reps // 2 if reps > 1 else k
